@@ -8,7 +8,7 @@ TICK_EVERY = 5      # every 5th case of every unit is repeated with numpy intege
 RULE = ("all well-formed note sets over the tick lattice (pairs over the full lattice, triples/quads around one "
         "grid point, notes + 1-2 signature events, colliding pair + far survivor) x 7 step lists; "
         "distinct = distinct (steps, notes, events); non-trivial = some event moves or some note is dropped")
-SCALE = ('16-120 notes (long) and the ladder 33..1025 notes at ticks up to ~38000 with step lists of common period 5040 / 143 / 240 / 48 / 4, dozens of collapsing notes beside surviving long ones, an event on the last tick')
+SCALE = ('16-120 notes (long) and the ladder 33..1025 notes at ticks up to ~38000 with step lists of common period 5040 / 143 / 240 / 48 / 4, dozens of collapsing notes beside surviving long ones, an event on the last tick; control and program changes; restated signatures built through either representation; numpy integer ticks every 5th case')
 ASSUMPTIONS = ["input sequences are well-formed (property precondition)",
                "tie-breaking between equidistant grid points and the choice of surviving note are not demanded"]
 REQUIRED_FLAGS = ["built_through_the_relative_representation", "step_list_object_reused", "after_history", "same_pitch_two_channels", "note_dropped", "event_moved", "isolated_note_checked",
